@@ -98,52 +98,52 @@ PROPS.update({
     "C01": engine_prop("TestC01", "stateful model-based PBT (rapid) over a multi-shard ledger simulator: exact-move, delivery-accepted and global conservation oracles",
         "Tens of thousands (quick) to millions (thorough) of generated calls: every successful transfer must move exactly the listed quantities at storage-key level, every protocol-generated message must be accepted unless frozen/paused/non-payable, refunds must be accepted, and after every step accounts + undelivered messages = supply for every key. Sampled, not exhaustive.",
         HIST + "Non-trivial = a successful transfer execution (either side), delivery or refund; distinct by (kind, function, side, generator shape labels "
-        "such as same/cross shard, destination-holds, multi-n, alias, attached call, call type, #args, #items).", 600, 7000),
+        "such as same/cross shard, destination-holds, multi-n, alias, attached call, call type, #args, #items).", 4000, 60000),
     "C02": engine_prop("TestC02", "stateful model-based PBT (rapid): exact supply deltas, overdraft must-fail, non-negativity scan",
         "Every successful mint/burn/create/add-quantity/wipe must change exactly the caller's (target's) entry by the stated amount and nothing else; any operation taking more than held must fail; every stored value is scanned for sign after every step.",
-        HIST + "Non-trivial = a successful supply-changing call, or a rejected one whose amount is balance+1 or 0; distinct by (function, amount/shape labels, side).", 600, 6000),
+        HIST + "Non-trivial = a successful supply-changing call, or a rejected one whose amount is balance+1 or 0; distinct by (function, amount/shape labels, side).", 4000, 50000),
     "C03": engine_prop("TestC03", "stateful model-based PBT (rapid) with role-subset templates: must-fail on missing role, no-effect oracle for unauthorised system/account calls, frame monitor on role/freeze/pause/counter keys",
         "Role-gated calls by accounts whose model role set lacks the required role must fail; system-only and account-level functions called by anybody else must leave every shard unchanged; role lists, frozen bits, pause flags and counters may change only in calls from the system contract (or the hand-over message). A directed template gives an account every role but one, plus the roles for another token.",
-        HIST + "Non-trivial = a call of a role-gated/system-only/account-level function that is unauthorised per the model (rejected or not), or an authorised success; distinct by (function, outcome, the caller's role subset for the named token + #roles on other tokens).", 500, 5000),
+        HIST + "Non-trivial = a call of a role-gated/system-only/account-level function that is unauthorised per the model (rejected or not), or an authorised success; distinct by (function, outcome, the caller's role subset for the named token + #roles on other tokens).", 3500, 45000),
     "C04": engine_prop("TestC04", "stateful model-based PBT (rapid): must-fail while frozen/paused + diff monitor on flagged entries, exemptions from the statement",
         "While the model says an entry is frozen or its token paused on the shard, every attempt to change it must fail unless it is a return-after-error refund or a freeze/unfreeze/wipe by the system contract; unfreeze/unpause must restore behaviour (the model drops the flag and exactness is checked on later calls).",
-        HIST + "Non-trivial = a balance-changing attempt on a frozen entry / paused token (rejected), or an exempt change that was accepted; distinct by (function, which flag and side, outcome, refund flag).", 600, 6000),
+        HIST + "Non-trivial = a balance-changing attempt on a frozen entry / paused token (rejected), or an exempt change that was accepted; distinct by (function, which flag and side, outcome, refund flag).", 4000, 50000),
     "C05": engine_prop("TestC05", "stateful model-based PBT (rapid): SaveKeyValue key-lattice generator with last-write-wins oracle + whole-world frame monitor on every call",
         "SaveKeyValue is driven with keys from the prefix lattice of ELROND (proper prefixes, exact, extended, case variants, live protocol keys) and must reject protected keys / contracts / foreign accounts and write exactly the listed pairs; every call of every history may only touch protocol entries of tokens named in its input in sender, destination or system account.",
-        HIST + "Non-trivial = a SaveKeyValue that must be rejected, a SaveKeyValue that changed >= 1 key, or any successful state-changing call (frame part); distinct by key class / (function, side, classes of entries changed).", 600, 5000),
+        HIST + "Non-trivial = a SaveKeyValue that must be rejected, a SaveKeyValue that changed >= 1 key, or any successful state-changing call (frame part); distinct by key class / (function, side, classes of entries changed).", 4000, 50000),
     "C06": engine_prop("TestC06", "stateful PBT (rapid) with gas drawn around the model's expected charge; arbitrary-precision gas inequality oracle",
         "For every successful call GasRemaining + forwarded gas <= GasProvided in big-integer arithmetic; with GasProvided below the expected charge a success must consume everything. Gas is drawn from {0,1,charge-1,charge,charge+1,2*charge,2^32,2^63,2^64-1} using the model's charge formula.",
-        HIST + "Non-trivial = a success with GasProvided <= charge+1, or a rejection for lack of gas; distinct by (function, side, gas class, shape labels).", 700, 6000),
+        HIST + "Non-trivial = a success with GasProvided <= charge+1, or a rejection for lack of gas; distinct by (function, side, gas class, shape labels).", 4500, 50000),
     "C07": engine_prop("TestC07", "stateful model-based PBT (rapid) with create/hand-over templates: returned nonce = counter+1, issued-set uniqueness, counter/role movement oracle",
         "Every successful create must return previous counter + 1 above every nonce ever issued for the token; hand-over (same shard, cross shard, late, immediately re-delivered, seeded counters up to 2^63) must move counter and role together; nobody can create while it is in flight.",
-        HIST + "Non-trivial = a create that follows a burn, a transfer-away or a hand-over of the same token in the same history; distinct by (sequence of preceding event kinds, byte length of the returned nonce).", 600, 5000),
+        HIST + "Non-trivial = a create that follows a burn, a transfer-away or a hand-over of the same token in the same history; distinct by (sequence of preceding event kinds, byte length of the returned nonce).", 4000, 50000),
     "C08": engine_prop("TestC08", "stateful model-based PBT (rapid): field-by-field metadata equality with the model after every step, payload decoded with the reference codec",
         "The model carries the metadata of every holding; after every step every NFT entry must equal it field by field; payloads of emitted messages and the create log are decoded with the independent decoder; royalties above 10000 and hash clashes must be rejected.",
-        HIST + "Non-trivial = a successful hop (either side) of an item whose metadata has >= 1 non-empty optional field, a metadata update, or a call that must be rejected (royalties / different hash); distinct by (function, side, field-emptiness pattern, #items).", 600, 5000),
+        HIST + "Non-trivial = a successful hop (either side) of an item whose metadata has >= 1 non-empty optional field, a metadata update, or a call that must be rejected (royalties / different hash); distinct by (function, side, field-emptiness pattern, #items).", 4000, 50000),
     "C09": engine_prop("TestC09", "stateful model-based PBT (rapid) with a per-address payability oracle (payable/non-payable/erroring): must-fail + credit monitor with the statement's exemptions",
         "Any credit through a transfer function to an account the oracle reports non-payable (or errors on) must carry an exemption (attached call by argument count, callback / transfer-and-execute, system contract, refund); metachain, self and wrong-length destinations must be rejected.",
-        HIST + "Non-trivial = a transfer that must be rejected under C09 (non-payable without exemption, metachain, self, length), or an exempt credit to a non-payable account; distinct by (function, reason/side, outcome, call type, #args).", 600, 5000),
+        HIST + "Non-trivial = a transfer that must be rejected under C09 (non-payable without exemption, metachain, self, length), or an exempt credit to a non-payable account; distinct by (function, reason/side, outcome, call type, #args).", 4000, 50000),
     "C10": engine_prop("TestC10", "differential PBT (rapid): emitted data vs independent decoder vs call-args parser; ESDT-transfer parser vs the ledger diff/model on the executing input; delivery-accepted oracle",
         "Every non-empty emitted data string must parse (ParseData) to what the harness decoder reads and to what the model says was encoded; every continued operation must be accepted by the same-named function on the destination shard; ParseESDTTransfers on the executing input must report exactly the receiver, items and attached call the ledger moves.",
-        HIST + "Non-trivial = an accepted transfer with >= 1 of {attached call, >= 2 tokens, NFT payload, leading-zero number, delivery}; distinct by (function, side, shape labels, #args).", 600, 6000),
+        HIST + "Non-trivial = an accepted transfer with >= 1 of {attached call, >= 2 tokens, NFT payload, leading-zero number, delivery}; distinct by (function, side, shape labels, #args).", 4000, 50000),
     "C11": engine_prop("TestC11", "stateful PBT (rapid) weighted to G2/G3 hostile inputs: result-shape, panic and allocation-ceiling oracles",
         "All 23 functions are called with 0..12 adversarial arguments (wrap residues of 3n+c, aliasing identifiers, 8/9-byte integers, 2^20..2^24 counts, 31/32/33-byte addresses) on states reached by valid prefixes, plus every emitted message on its destination shard: (Ok output, nil error) xor (nil output, error), no panic, < 8 MiB allocated per call.",
-        HIST + "Non-trivial = a G2/G3 call that gets past argument-count validation (its error is not an invalid-arguments / nil-input one) or carries a hostile constant; distinct by (function, layer, shape labels, error class, #args).", 900, 9000),
+        HIST + "Non-trivial = a G2/G3 call that gets past argument-count validation (its error is not an invalid-arguments / nil-input one) or carries a hostile constant; distinct by (function, layer, shape labels, error class, #args).", 6000, 80000),
     "C15": engine_prop("TestC15", "stateful PBT (rapid) long random walks with a full well-formedness scan of the executing shard after every step",
         "Long walks (100-300 operations): after every step every ELROND key must have one of the three layouts, every value must decode, balances positive (zero only with a frozen flag), fungible entries without and NFT entries with matching metadata nonce, no duplicate roles, create-role counter >= highest nonce issued.",
-        HIST + "Non-trivial = a step that added, removed or rewrote a protocol entry; distinct by (function, side, set of (entry kind, transition kind)).", 120, 1200),
+        HIST + "Non-trivial = a step that added, removed or rewrote a protocol entry; distinct by (function, side, set of (entry kind, transition kind)).", 700, 8000),
     "C16": engine_prop("TestC16", "stateful model-based PBT (rapid) with generated schedule-change sequences (valid, one entry zeroed, one entry missing; 22 pairwise distinct costs): exact-charge oracle",
         "Schedules with pairwise distinct costs are changed 0..n times (each valid or invalid by one entry); every successful priced execution must consume exactly its own entry plus per-byte components under the last ACCEPTED schedule (same-shard NFT moves: base or base + payload bytes).",
-        HIST + "Non-trivial = a successful priced execution after >= 1 schedule change on its shard; distinct by (function, side, #changes capped at 3, validity of the last change, input size class).", 600, 5000),
+        HIST + "Non-trivial = a successful priced execution after >= 1 schedule change on its shard; distinct by (function, side, #changes capped at 3, validity of the last change, input size class).", 4000, 50000),
 })
 
 PROPS.update({
     "C13": engine_prop("TestC13", "metamorphic / differential PBT (rapid): every call of a generated history executed three times (history world, clone with fresh container, clone whose container served earlier calls; two on other goroutines) with byte-identical canonical serialisations; input laid out in one poisoned backing array",
         "Each call's result (return code, gas, return data, logs in order, output accounts/transfers, error text) and resulting ledger are serialised canonically and must be identical across the three executions; the input structure, every argument slice and the shared backing array including spare capacity must equal the copy taken before the call.",
-        HIST + "Non-trivial = a successful call that changes state or emits an output transfer (executed 3x); distinct by (function, side, emits, #logs, shape labels).", 400, 2500),
+        HIST + "Non-trivial = a successful call that changes state or emits an output transfer (executed 3x); distinct by (function, side, emits, #logs, shape labels).", 1500, 12000),
     "C17": engine_prop("TestC17", "fault-injection enumeration over rapid-generated successful scenarios: k-th call to each injected dependency fails, for every k",
         "For every distinct successful scenario met (function, side, dependency-call signature, call type, #args) the call is re-run on a clone once for every (dependency kind, k <= number of calls to it) with that call failing: data-trie write, accounts-adapter load/save, marshal, unmarshal, payable query, balance/owner/reward operation (system-account load only inside ESDTPause/UnPause; storage reads and the pause lookup are excluded by the statement). Exhaustive per scenario over its fault points; the scenario space is sampled.",
-        HIST + "Each successful scenario is fault-enumerated completely. Non-trivial = one (scenario signature, dependency kind, k) triple whose injected fault was actually reached; distinct by that triple.", 400, 4000,
+        HIST + "Each successful scenario is fault-enumerated completely. Non-trivial = one (scenario signature, dependency kind, k) triple whose injected fault was actually reached; distinct by that triple.", 2500, 25000,
         extra={"level": "fault_enumeration"}),
     "C18": {
         "test": "TestC18", "level": "exploration", "exhaustive_claim": True,
